@@ -97,6 +97,12 @@ class Equation(object):
         :return: str
         """
         out = [str(s) for s in self.TermList]
+        if len([x for x in out if not x == '']) > 1:
+            # An opaque expression whose outermost operator binds more loosely than '+' (a comparison, a bitwise
+            # operator) is bracketed when other terms stand next to it: 'a<b' plus 'c' is '(a<b)+c', not 'a<b+c'.
+            for i, term in enumerate(self.TermList):
+                if term.IsBlob and Equation._BindsLooserThanSum(out[i]):
+                    out[i] = '(' + out[i] + ')'
         out = ''.join(out)
         if out.startswith('+'):
             out = out[1:]
@@ -105,6 +111,32 @@ class Equation(object):
         if out == '':
             out = '0.0'
         return out
+
+    @staticmethod
+    def _BindsLooserThanSum(expression):
+        """
+        Does the expression have a comparison or bitwise operator outside all brackets?
+        :param expression: str
+        :return: bool
+        """
+        depth = 0
+        try:
+            if is_python_3:
+                g = tokenize.tokenize(BytesIO(expression.encode('utf-8')).readline)
+            else:  # pragma: no cover
+                g = tokenize.generate_tokens(BytesIO(expression.encode('utf-8')).readline)
+            for toknum, tokval, _, _, _ in g:
+                if not toknum == OP:
+                    continue
+                if tokval in ('(', '[', '{'):
+                    depth += 1
+                elif tokval in (')', ']', '}'):
+                    depth -= 1
+                elif depth == 0 and tokval in ('<', '>', '<=', '>=', '==', '!=', '|', '^', '&', '<<', '>>'):
+                    return True
+        except (tokenize.TokenError, SyntaxError, IndentationError):
+            return False
+        return False
 
     def RHS(self):
         """
